@@ -1,24 +1,26 @@
-(* Refinement of the operational engine to the denotational specification on the static combinational
-   fragment (used by C02, C03, C04, C13). Statements only; proofs in Proofs/NetRefine.v.
+(* Refinement of the operational engine to the denotational specification on every program without
+   switch_c (used by C02, C03, C04, C13).  Statements only; proofs in Proofs/NetRefine.v.
    Model/Net.v = the engine of Model/Engine.v (tied to update_node/end_of_transaction by the C03
    correspondence: update logs and firings equal) running the transliterated update closures of the
-   primitives, one node per definition. *)
+   primitives, one node per definition plus one spark node per key (the source that value() creates).
+   The wiring is fixed DURING a transaction; switch_s is re-wired by the commit (as in pre_post). *)
 From Coq Require Import List Arith Permutation.
 Import ListNotations.
 From Sodium Require Import Sodium Engine EngineTop Net NetRefine.
 
 (* ONE TRANSACTION: for every program of the fragment (map, filter, merge, snapshot, gate, once, hold,
-   constants, map_c, lift, updates, loops, router/route; any size, any depth of composition, any
-   function codes), every pre-transaction state and every set of simultaneous sends: the engine's
-   propagation terminates; every stream node ends with exactly the occurrence the specification assigns,
-   every cell node with exactly the specified update; every update closure ran at most once and only
-   after all of its inputs had settled. *)
+   constants, map_c, lift, updates, loops, router/route, switch_s, defer, split, value; any size, any
+   depth of composition, any function codes), every pre-transaction state in which the outer cell of
+   every switch_s refers to a stream and the graph so wired is acyclic, and every set of simultaneous
+   sends / deferred injection: the engine's propagation terminates; every stream node ends with exactly
+   the occurrence the specification assigns, every cell node with exactly the specified update; every
+   update closure ran at most once and only after all of its inputs had settled. *)
 Theorem Refine_transaction : forall st inj,
     in_fragment st = true -> NoDup (map fst (defs st)) -> refs_ok st = true -> cells_resolved st = true ->
-    acyclic st ->
+    switch_targets_ok st = true -> acyclic st ->
     exists fires lg,
       net_txn st inj = Some (fires, lg) /\
-      length fires = nsize st /\
+      length fires = gsize st /\
       (forall s d, alookup (defs st) s = Some d -> is_cell d = false ->
                    occ st inj (F st) s = EV (fire_of fires s)) /\
       (forall c d, alookup (defs st) c = Some d -> is_cell d = true ->
@@ -28,13 +30,13 @@ Proof. exact net_txn_refines. Qed.
 Print Assumptions Refine_transaction.
 
 (* ... for EVERY graph with these dependencies (any registration order of dependents) and EVERY queue
-   order of the sends *)
+   order of the sources *)
 Theorem Refine_any_order : forall st inj gr fs,
     in_fragment st = true -> NoDup (map fst (defs st)) -> refs_ok st = true -> cells_resolved st = true ->
-    acyclic st -> net_graph st gr -> Permutation fs (net_sources st inj) ->
+    switch_targets_ok st = true -> acyclic st -> net_graph st gr -> Permutation fs (net_sources st inj) ->
     exists fires lg,
       net_run st gr fs = Some (fires, lg) /\
-      length fires = nsize st /\
+      length fires = gsize st /\
       (forall s d, alookup (defs st) s = Some d -> is_cell d = false ->
                    occ st inj (F st) s = EV (fire_of fires s)) /\
       (forall c d, alookup (defs st) c = Some d -> is_cell d = true ->
@@ -43,19 +45,82 @@ Theorem Refine_any_order : forall st inj gr fs,
 Proof. exact net_refines. Qed.
 Print Assumptions Refine_any_order.
 
+(* THE CLOSE of a transaction: listener calls, committed state (cell values, once flags) and the work
+   deferred by defer / split are those of the specification *)
+Theorem Refine_close : forall st inj posts fires lg,
+    in_fragment st = true -> NoDup (map fst (defs st)) -> refs_ok st = true -> cells_resolved st = true ->
+    switch_targets_ok st = true -> listeners_ok st = true -> lazies_val st = true -> acyclic st ->
+    net_txn st inj = Some (fires, lg) ->
+    close_txn st inj posts =
+    EV (mkRes (net_commit st fires) (net_calls st fires)
+              (net_deferred st fires ++ map (fun p => DPost (fst p) (snd p)) posts)).
+Proof. exact close_txn_refines. Qed.
+Print Assumptions Refine_close.
+
 (* EVERY HISTORY: transaction after transaction (engine run, listener calls, commit of cell values and
-   once flags) the operational model delivers to every listener exactly what the specification says *)
-Theorem Refine_history : forall txns st, static_ok st ->
+   once flags, switches re-wired) the operational model delivers to every listener exactly what the
+   specification says - provided every state in which a transaction is run is wired (switch targets are
+   streams, no instantaneous cycle): history_ok st txns *)
+Theorem Refine_history : forall txns st, static_ok st -> history_ok st txns ->
     exists os, net_history st txns = Some os /\ spec_history st txns = EV os.
 Proof. exact net_history_refines. Qed.
 Print Assumptions Refine_history.
 
-(* the hypotheses are preserved from transaction to transaction, and are satisfiable: a 21-definition
-   program with a diamond, a hold, a snapshot, a lift2, both kinds of loops, once, a router, a gate *)
+(* without switch_s the wiring never changes and nothing is assumed of the later states *)
+Theorem Refine_history_no_switch : forall txns st, static_ok st -> no_switch st = true -> acyclic st ->
+    exists os, net_history st txns = Some os /\ spec_history st txns = EV os.
+Proof. exact net_history_refines_no_switch. Qed.
+Print Assumptions Refine_history_no_switch.
+
+(* AN OUTERMOST CLOSE with its deferred queue (defer, split, post), for every list of scheduling choices:
+   final state, observations in order and numbers of alternatives are those of Spec.end_outer (None = out
+   of fuel, exactly when the specification is) *)
+Theorem Refine_end_outer : forall choice st,
+    static_ok st -> posts_ok st (posts st) = true -> outer_ok choice st ->
+    end_outer choice st = of_opt (net_end_outer choice st).
+Proof. exact net_end_outer_refines. Qed.
+Print Assumptions Refine_end_outer.
+
+(* ... with an invariant of the commits in place of the run-dependent predicate: every choice list *)
+Theorem Refine_end_outer_inv : forall P : state -> Prop,
+    (forall st, P st -> wired_ok st) ->
+    (forall st inj fires lg, P st -> net_txn st inj = Some (fires, lg) -> P (net_commit st fires)) ->
+    forall choice st, static_ok st -> posts_ok st (posts st) = true -> P st ->
+    end_outer choice st = of_opt (net_end_outer choice st).
+Proof. exact net_end_outer_refines_inv. Qed.
+Print Assumptions Refine_end_outer_inv.
+
+Theorem Refine_end_outer_no_switch : forall choice st,
+    static_ok st -> posts_ok st (posts st) = true -> no_switch st = true -> acyclic st ->
+    end_outer choice st = of_opt (net_end_outer choice st).
+Proof. exact net_end_outer_refines_no_switch. Qed.
+Print Assumptions Refine_end_outer_no_switch.
+
+(* histories of outermost transactions (sends, post closures, choices) *)
+Theorem Refine_outer_history : forall txns st, static_ok st -> outer_history_ok st txns ->
+    spec_outer_history st txns = of_opt (net_outer_history st txns).
+Proof. exact net_outer_history_refines. Qed.
+Print Assumptions Refine_outer_history.
+
+(* the static hypotheses are preserved from transaction to transaction; the wiring hypotheses too when
+   there is no switch_s *)
 Theorem Refine_hyps_preserved : forall st fires, static_ok st -> static_ok (net_commit st fires).
 Proof. exact static_ok_commit. Qed.
 Print Assumptions Refine_hyps_preserved.
 
-Example Refine_nonvacuous : static_ok ex_st.
-Proof. exact ex_static_ok. Qed.
+Theorem Refine_wiring_preserved : forall st fires,
+    no_switch st = true -> wired_ok st -> wired_ok (net_commit st fires).
+Proof. exact wired_ok_commit_no_switch. Qed.
+Print Assumptions Refine_wiring_preserved.
+
+(* the hypotheses are satisfiable: a 31-definition program with a diamond, a hold, a snapshot, a lift2,
+   both kinds of loops, once, a router, a gate, a switch_s over two candidate streams that is re-wired
+   twice during the example histories, a defer, a split and two value()s *)
+Example Refine_nonvacuous :
+  static_ok ex_st /\ wired_ok ex_st /\ history_ok ex_st ex_txns /\ outer_history_ok ex_st ex_otxns /\
+  (exists c, alookup (defs ex_st) 23 = Some (DSwitchS c)) /\ (exists a, alookup (defs ex_st) 24 = Some (DDefer a)).
+Proof.
+  exact (conj ex_static_ok (conj ex_wired_ok (conj ex_history_ok (conj ex_outer_history_ok
+          (conj (ex_intro _ 22 eq_refl) (ex_intro _ 23 eq_refl)))))).
+Qed.
 Print Assumptions Refine_nonvacuous.
